@@ -8,6 +8,16 @@ import (
 
 func zeroOf(k kind) value { return value{K: k} }
 
+func incFamily(k kind) string {
+	switch {
+	case k.signed():
+		return "IncrementInt"
+	case k.unsigned():
+		return "IncrementUint"
+	}
+	return "IncrementFloat"
+}
+
 func evalCond(c *cond, v value) bool {
 	var cmp int
 	switch {
@@ -171,7 +181,7 @@ func checkIncResponseMeta(rpc, sit string, r *record, inc *obsInc) *viol {
 func (m *model) applyIncrement(o *op, ob *obs) *viol {
 	sm := m.sw[o.Sw]
 	km := sm.keys[o.Key]
-	rpc := o.RPC
+	rpc := incFamily(o.Kind) // signatures name the family (IncrementInt/Uint/Float), not the ten RPCs
 	sit := m.situation(o)
 	if s, ok := km.single(); ok && !s.Absent {
 		sit += ":cur" + zeroMark(s.R.Val) // a current value of zero is marked (zero values have their own reload defect)
@@ -191,7 +201,7 @@ func (m *model) applyIncrement(o *op, ob *obs) *viol {
 	if km.wild {
 		if ob.Err == nil && ob.Inc.Incremented {
 			km.wild, km.cands = false, []kstate{{R: record{Val: ob.Inc.Val, CAt: mt{Any: true}, UAt: mt{Any: true}, EAt: mt{Any: true}, CBy: ms{Any: true}, UBy: ms{Any: true}}}}
-			km.prov, km.reloaded = rpc+":unspecified", false
+			km.prov, km.reloaded, km.loose = rpc+":unspecified", false, false
 		}
 		return nil
 	}
@@ -277,23 +287,23 @@ func (m *model) applyIncrement(o *op, ob *obs) *viol {
 			goWild = true // void value: "different type" or "no value yet" — not documented
 			return []kstate{s}, nil
 		default:
-			return nil, &viol{fmt.Sprintf("%s:type-mismatch:no-error:stored=%s%s", rpc, s.R.Val.K.class(), provSuffix(km)), fmt.Sprintf("%s on %s/%s holding %s succeeded (value %s); documented: the call fails", rpc, sm.cfg.Name, o.Key, s.R.Val, inc.Val)}
+			return nil, &viol{fmt.Sprintf("%s:type-mismatch:no-error:stored=%s%s", rpc, s.R.Val.K.sigClass(), provSuffix(km)), fmt.Sprintf("%s on %s/%s holding %s succeeded (value %s); documented: the call fails", rpc, sm.cfg.Name, o.Key, s.R.Val, inc.Val)}
 		}
 	})
 	if v != nil {
 		return v
 	}
 	label := rpc + ":" + prev
-	if o.Cond != nil {
-		label += "+cond"
-	}
-	if o.IfNot != nil || o.IfExist != nil {
-		label += "+meta"
+	if ob.Inc != nil && !ob.Inc.Incremented {
+		label += ":condition-failed"
 	}
 	if goWild {
 		km.setWild(label + ":unspecified")
 	} else if mutated {
 		km.prov, km.reloaded = label, false
+		if ob.Inc != nil && ob.Inc.Incremented {
+			km.loose = false // a successful increment saves the treasure
+		}
 	}
 	return nil
 }
@@ -336,7 +346,7 @@ func (m *model) applyPush(o *op, ob *obs) *viol {
 			excuse = true
 		}
 		if cl == "mismatch" && ob.Err == nil {
-			return &viol{fmt.Sprintf("Uint32SlicePush:type-mismatch:no-error:stored=%s", s.R.Val.K.class()), fmt.Sprintf("Uint32SlicePush %v onto %s/%s holding %s returned no error; documented: an error is returned", p.Values, sm.cfg.Name, p.Key, s.R.Val)}
+			return &viol{fmt.Sprintf("Uint32SlicePush:type-mismatch:no-error:stored=%s", s.R.Val.K.sigClass()), fmt.Sprintf("Uint32SlicePush %v onto %s/%s holding %s returned no error; documented: an error is returned", p.Values, sm.cfg.Name, p.Key, s.R.Val)}
 		}
 	}
 	if ob.Err != nil && !excuse {
@@ -451,7 +461,7 @@ func (m *model) applySliceSize(o *op, ob *obs) *viol {
 			}
 		default:
 			if ob.Err == nil {
-				return nil, &viol{fmt.Sprintf("Uint32SliceSize:type-mismatch:no-error:stored=%s%s", s.R.Val.K.class(), provSuffix(km)), fmt.Sprintf("Uint32SliceSize(%s/%s) holding %s answered %d without error", sm.cfg.Name, o.Key, s.R.Val, ob.Size)}
+				return nil, &viol{fmt.Sprintf("Uint32SliceSize:type-mismatch:no-error:stored=%s%s", s.R.Val.K.sigClass(), provSuffix(km)), fmt.Sprintf("Uint32SliceSize(%s/%s) holding %s answered %d without error", sm.cfg.Name, o.Key, s.R.Val, ob.Size)}
 			}
 		}
 		return []kstate{s}, nil
@@ -498,7 +508,7 @@ func (m *model) applySliceIsValueExist(o *op, ob *obs) *viol {
 			// void: "type is invalid" or an empty set — not documented
 		default:
 			if ob.Err == nil {
-				return nil, &viol{fmt.Sprintf("Uint32SliceIsValueExist:type-mismatch:no-error:stored=%s", s.R.Val.K.class()), fmt.Sprintf("Uint32SliceIsValueExist(%s/%s) holding %s answered %v without error; documented: returns an error", sm.cfg.Name, o.Key, s.R.Val, ob.Bool)}
+				return nil, &viol{fmt.Sprintf("Uint32SliceIsValueExist:type-mismatch:no-error:stored=%s", s.R.Val.K.sigClass()), fmt.Sprintf("Uint32SliceIsValueExist(%s/%s) holding %s answered %v without error; documented: returns an error", sm.cfg.Name, o.Key, s.R.Val, ob.Bool)}
 			}
 		}
 		return []kstate{s}, nil
